@@ -70,6 +70,15 @@ def items(tier):
                 for kinds in (["cmd"] * n, ["exp"] * n):
                     out.append({"case": {"g": g, "kinds": kinds, "pars": [True] * n, "jobs": jobs, "fails": {str(failing): ["launch"]}}, "bound": 1})
                     out.append({"case": {"g": g, "kinds": kinds, "pars": [True] * n, "jobs": jobs, "fails": {str(failing): ["execfail"]}}, "bound": 1})
+    # one failing task in every 4-task graph (5 in thorough), every listing order: skipped tasks with several dependencies, some of
+    # them still pending when the skip happens
+    for g in rungrid.graphs_upto((4,) if tier == "quick" else (4, 5)):
+        n = len(g)
+        for failing in range(1, n):
+            for jobs, pars in ((1, [False] * n), (2, [True] * n)):
+                if n == 5 and jobs == 1 and failing % 2:
+                    continue
+                out.append({"case": {"g": g, "kinds": ["cmd"] * n, "pars": pars, "jobs": jobs, "fails": {str(failing): ["exit", 3]}}, "bound": 0})
     # every 4- and 5-task graph in every listing order, all completion orders
     for g in rungrid.graphs_upto((4, 5)):
         out.append({"case": {"g": g, "kinds": ["cmd"] * len(g), "pars": [True] * len(g), "jobs": 2, "fails": {}}, "bound": 0})
